@@ -22,6 +22,7 @@ pub fn requirements(tier: Tier) -> Vec<(&'static str, u64)> {
     vec![
         ("exhaustive:scalar-names-x-type", 7 * 1_112_064),
         ("exhaustive:short-names-x-type", 7 * short),
+        ("exhaustive:scalar-in-context-x-rule", 10 * 1_112_064),
         ("rule-changed-name:pypi", 1_000),
         ("rule-changed-name:nuget", 1_000),
         ("set:titlecase-exercised", 31),
@@ -251,6 +252,14 @@ pub fn run(ctx: &mut Ctx) {
         let n = c.to_string();
         for ty in &types {
             name_case(ctx, ty, &n, "exhaustive:scalar-names-x-type");
+        }
+        // the same scalar where the name rules take their other paths: next to a non-ASCII
+        // capital (Unicode lower-casing), next to an ASCII capital (ASCII lower-casing), and
+        // next to a separator run (pypi rebuild of the name)
+        for n in [format!("É{c}"), format!("{c}É"), format!("A{c}b"), format!("a_.{c}"), format!("{c}-B")] {
+            for ty in ["nuget", "pypi"] {
+                name_case(ctx, ty, &n, "exhaustive:scalar-in-context-x-rule");
+            }
         }
     }
     // G7b: every string up to length L over the 8-letter alphabet
